@@ -1,7 +1,7 @@
 (* C10 — Token manager custody, mint authority and role transfers are exact and gated.
    Statements only; proofs in Proofs/TMFacts.v. *)
 From Coq Require Import String List NArith Lia.
-From Ax Require Import Lib.Bytes Lib.Mvx Model.Check Model.Env Model.TokenManager Proofs.TMFacts Proofs.TMCustody Gen.Generated.
+From Ax Require Import Lib.Bytes Lib.Mvx Model.Check Model.Env Model.TokenManager Model.TMUpgrade Proofs.TMFacts Proofs.TMCustody Proofs.TMUpgradeFacts Gen.Generated.
 Import ListNotations.
 Open Scope N_scope.
 
@@ -93,7 +93,41 @@ Theorem c10_custody_history : forall ops t l self tok, lockish t self tok -> ops
   lockish t' self tok /\ bal l' self tok + total_given self t l ops = bal l self tok + total_taken t l ops.
 Proof. exact lock_custody_history. Qed.
 
+(* ---- the upgrade path (Model/TMUpgrade.v, Proofs/TMUpgradeFacts.v): `upgrade` re-runs the constructor on an existing manager ----
+   whatever its arguments: the recorded service, token id, flow limit and counters, pending issuances and proposals stay; a recorded
+   token stays; a lock/unlock or mint/burn type stays (a NATIVE type, stored as the empty buffer, is replaced -- see the Example below);
+   no funds move; roles are only added, and only to the operator and service named in the arguments.  Upgrades can be sent by the
+   manager's owner only (the protocol's rule, not the contract's); for managers deployed by the token service that owner is the service
+   contract, which has no code path that upgrades a manager: histories with upgrades are outside what the deployed system can do, the
+   theorems say what they could and could not change *)
+Theorem c10_upgrade_spec : forall t self service ty tid operator token t' e,
+  tm_upgrade t self service ty tid operator token = Some (t', e) ->
+  fixed_eq t t' /\
+  (tm_type t <> T_NATIVE -> tm_type t' = tm_type t) /\ (tm_type t = T_NATIVE -> tm_type t' = ty) /\
+  (tm_token t <> [] -> tm_token t' = tm_token t) /\
+  (tm_token t = [] -> tm_token t' = match token with Some tk => tk | None => [] end) /\
+  (forall a, N.land (roles_of t' a) (roles_of t a) = roles_of t a) /\
+  (forall a, a <> service -> a <> match operator with Some o => o | None => zero32 end -> roles_of t' a = roles_of t a).
+Proof. exact upgrade_spec. Qed.
+Theorem c10_upgrade_moves_nothing : forall t l u, snd (fst (ustep t l (inr u))) = l.
+Proof. exact upgrade_ledger. Qed.
+(* histories of endpoint calls, issuance callbacks and upgrades with arbitrary arguments, in any order: the service recorded at
+   deployment is the recorded service for ever, so nobody else ever makes the manager give or take *)
+Theorem c10_service_forever : forall ops t l, tm_service (fst (urun t l ops)) = tm_service t.
+Proof. exact urun_service. Qed.
+Theorem c10_give_after_history_service_only : forall ops t0 l0 l c d a,
+  t_caller c <> tm_service t0 -> give_token (fst (urun t0 l0 ops)) l c d a = None.
+Proof. exact give_after_history_service_only. Qed.
+Theorem c10_take_after_history_service_only : forall ops t0 l0 l c,
+  t_caller c <> tm_service t0 -> take_token (fst (urun t0 l0 ops)) l c = None.
+Proof. exact take_after_history_service_only. Qed.
+Theorem c10_token_forever_with_upgrades : forall ops t l, tm_token t <> [] -> tm_token (fst (urun t l ops)) = tm_token t.
+Proof. exact urun_token. Qed.
+
 Print Assumptions c10_give_lock.
+Print Assumptions c10_upgrade_spec.
+Print Assumptions c10_service_forever.
+Print Assumptions c10_give_after_history_service_only.
 Print Assumptions c10_custody_history.
 Print Assumptions c10_give_mint.
 Print Assumptions c10_transfer_role.
@@ -124,3 +158,23 @@ Example c10_custody_nonvacuous :
   | None => False
   end.
 Proof. vm_compute. repeat split; reflexivity. Qed.
+
+(* the upgrade path is not vacuous, and the one thing it does replace: a native manager (type 0, stored as the empty buffer) upgraded with
+   the arguments of a lock/unlock manager becomes a lock/unlock manager; a lock/unlock manager upgraded with another service, type,
+   token id and token keeps all four *)
+Module UP.
+  Definition A (n : N) := be_enc 32 n.
+  Definition native : tm := {| tm_service := A 9; tm_type := T_NATIVE; tm_tid := A 77; tm_token := str "MTK-abcdef"; tm_roles := [(A 9, 6)]; tm_proposed := [];
+                               tm_limit := 5; tm_in := []; tm_out := []; tm_pending := 0 |}.
+  Definition lock : tm := {| tm_service := A 9; tm_type := T_LOCK_UNLOCK; tm_tid := A 77; tm_token := str "TOK-123456"; tm_roles := [(A 9, 6)]; tm_proposed := [];
+                             tm_limit := 5; tm_in := []; tm_out := []; tm_pending := 0 |}.
+  Definition up := TUpgrade (A 32) (A 13) T_LOCK_UNLOCK_FEE (A 78) (Some (A 13)) (Some (str "OTHER-abcdef")).
+End UP.
+Example c10_upgrade_nonvacuous :
+  let '(t1, l1, o1) := ustep UP.native [] (inr UP.up) in
+  let '(t2, l2, o2) := ustep UP.lock [] (inr UP.up) in
+  to_ok o1 = true /\ tm_type t1 = T_LOCK_UNLOCK_FEE /\ tm_service t1 = UP.A 9 /\ tm_token t1 = str "MTK-abcdef" /\ roles_of t1 (UP.A 13) = 6 /\
+  to_ok o2 = true /\ tm_type t2 = T_LOCK_UNLOCK /\ tm_service t2 = UP.A 9 /\ tm_tid t2 = UP.A 77 /\ tm_token t2 = str "TOK-123456" /\ tm_limit t2 = 5.
+Proof. vm_compute. repeat split; reflexivity. Qed.
+Check c10_service_forever.
+Check c10_upgrade_spec.
